@@ -38,9 +38,11 @@ class Path:
         self.facts = []
         self.end = None
         self.loops = 0
+        self.locals = {}     # local name -> AST of the single expression it was last bound to on this path
 
     def copy(self):
         p = Path()
+        p.locals = dict(self.locals)
         p.effs = list(self.effs)
         p.facts = list(self.facts)
         p.end = self.end
@@ -258,13 +260,16 @@ class Analyzer:
                 if A:
                     A[-1].append(p.copy())
                 outs = self._apply_expr(st.value, p, fi, depth)
-                v = norm(st.value)
+                rhs = st.value
+                if isinstance(rhs, ast.Name) and rhs.id in p.locals:
+                    rhs = p.locals[rhs.id]          # `tmp = {...}; self._children = tmp`
+                v = norm(rhs)
                 canonical = v.replace(' ', '') in ('{idx:childforidx,childinenumerate(self)}', '{i:cfori,cinenumerate(self)}', 'dict(enumerate(self))', '{i:vfori,vinenumerate(self)}', '{idx:valueforidx,valueinenumerate(self)}')
                 if not canonical:
                     # any dict comprehension {a: b for a, b in enumerate(self)}
-                    canonical = isinstance(st.value, ast.DictComp) and len(st.value.generators) == 1 and norm(st.value.generators[0].iter) == 'enumerate(self)' \
-                        and not st.value.generators[0].ifs and isinstance(st.value.generators[0].target, ast.Tuple) \
-                        and [norm(e) for e in st.value.generators[0].target.elts] == [norm(st.value.key), norm(st.value.value)]
+                    canonical = isinstance(rhs, ast.DictComp) and len(rhs.generators) == 1 and norm(rhs.generators[0].iter) == 'enumerate(self)' \
+                        and not rhs.generators[0].ifs and isinstance(rhs.generators[0].target, ast.Tuple) \
+                        and [norm(e) for e in rhs.generators[0].target.elts] == [norm(rhs.key), norm(rhs.value)]
                 kind = 'from-storage' if canonical else ('empty' if v in ('{}', 'dict()') else 'other')
                 for q in outs:
                     q.effs.append(Eff('C', 'rebuild', kind, st))
@@ -280,7 +285,11 @@ class Analyzer:
                 return res
             if A and self._calls(st):
                 A[-1].append(p.copy())
-            return self._apply_expr(st.value, p, fi, depth)
+            outs = self._apply_expr(st.value, p, fi, depth)
+            if isinstance(t, ast.Name):
+                for q in outs:
+                    q.locals[t.id] = st.value
+            return outs
         if isinstance(st, ast.Delete) and len(st.targets) == 1 and isinstance(st.targets[0], ast.Subscript):
             t = st.targets[0]
             if A:
@@ -377,6 +386,22 @@ def canon(e):
     return (op, k)
 
 
+def _normfact(f):
+    """strip double negations; `not a != b` -> `a == b`"""
+    try:
+        e = ast.parse(f, mode='eval').body
+    except SyntaxError:
+        return f
+    neg = False
+    while isinstance(e, ast.UnaryOp) and isinstance(e.op, ast.Not):
+        neg = not neg
+        e = e.operand
+    if neg and isinstance(e, ast.Compare) and len(e.ops) == 1 and isinstance(e.ops[0], (ast.NotEq, ast.Eq)):
+        e = ast.Compare(left=e.left, ops=[ast.Eq() if isinstance(e.ops[0], ast.NotEq) else ast.NotEq()], comparators=e.comparators)
+        neg = False
+    return ('not ' if neg else '') + norm(e)
+
+
 def balanced(p, base):
     """(ok, why) for one path"""
     B = [e for e in p.effs if e.store == 'B']
@@ -403,12 +428,12 @@ def balanced(p, base):
     c = sorted(map(canon, C), key=str)
     if b == c:
         return True, 'balanced'
-    facts = [f.replace(' ', '') for f in p.facts]
+    facts = [_normfact(f).replace(' ', '') for f in p.facts]
 
     def eqfact(x, y):
         return any(f == '%s==%s' % (x, y) or f == '%s==%s' % (y, x) for f in facts)
     if len(b) == len(c) and all(bo == co and (bk == ck or eqfact(bk, ck)) for (bo, bk), (co, ck) in zip(b, c)):
         return True, 'balanced under a path fact'
-    if len(b) == 1 and not c and b[0][0] == 'del' and any(f.startswith('not(self.ayns.has_child(') or f.startswith('not(self.has_child(') for f in facts):
+    if len(b) == 1 and not c and b[0][0] == 'del' and any(f.startswith(('not(self.ayns.has_child(', 'not(self.has_child(', 'notself.ayns.has_child(', 'notself.has_child(')) for f in facts):
         return True, 'storage deletion with the child map known not to hold the key'
     return False, 'storage effects %s vs child-map effects %s' % (b, c)
